@@ -76,7 +76,9 @@ class LeaderFollowerIntersector(Intersector):
         new_intersects = len(traces[0])
 
         # Throw away the header, since we don't need it
-        if not self.started:
+        # Note: a trace consumed before the first intersection has started
+        # is empty, the header only arrives with a later call
+        if not self.started and traces[0]:
             self.started = True
             new_intersects -= 1
 
